@@ -506,6 +506,17 @@ func (s *Server) handleNewConnection(ctx context.Context, rwc io.ReadWriteCloser
 
 	s.ClientMgr.Add(c)
 
+	// No ID left: every one of the 65,535 IDs is held by a connected client.  Refuse the login like a failed one.
+	if c.ID == (ClientID{}) {
+		t := c.NewErrReply(&clientLogin, "The server is full.")[0]
+		_, _ = io.Copy(rwc, &t)
+
+		// The connection never became a user: nothing to announce when it is closed.
+		c.Account = nil
+
+		return nil
+	}
+
 	s.outbox <- c.NewReply(&clientLogin,
 		NewField(FieldVersion, []byte{0x00, 0xbe}),
 		NewField(FieldCommunityBannerID, []byte{0, 0}),
